@@ -36,6 +36,7 @@ type e2eReq struct {
 	How      string   `json:"how"`
 	Remote   string   `json:"remote"`
 	XFF      []string `json:"xff,omitempty"`
+	Amb      int      `json:"-"` // 1 + index into ambiguousXFF for requests whose first X-Forwarded-For element is empty
 	XRI      string   `json:"xri,omitempty"`
 	Status   int      `json:"status,omitempty"`
 	Aborted  bool     `json:"aborted,omitempty"`  // the response broke off after its head
@@ -81,7 +82,7 @@ func TestC09EndToEnd(t *testing.T) {
 		"X-Forwarded-For alone / as first element of a list with irregular spacing / on two field lines / together with a contradicting X-Real-IP, behind a shared or colliding peer address; "+
 		"oracle per request: answered 429 => handed to no backend, otherwise to exactly one (none only for the balancer's own 503 when passive checks ejected every backend); "+
 		"per attributed address (reference re-statement of 'first X-Forwarded-For element trimmed, else X-Real-IP, else RemoteAddr host') TWO histories: the requests not answered 429 (B1/B2/B3, whatever the backend then did) and the requests that reached a backend (B1); "+
-		"requests with an empty first X-Forwarded-For element (rule silent) are only checked per request; "+
+		"requests with an empty first X-Forwarded-For element (rule silent on the address) are checked per request and, per identical header value from one peer host, against the upper bound B1 (one client under every reading); "+
 		"non-trivial = some identity was refused and admitted again after an advance AND was presented in at least two different ways")
 	sub.NontrivialFloor(0.30)
 	sub.Floor("multi-identity", 0.40)
@@ -152,6 +153,7 @@ func TestC09EndToEnd(t *testing.T) {
 		}
 		var viol string
 		ambiguous, uniq, rid := 0, 0, 0
+		ambAdmitted := map[int][]time.Duration{} // by ambiguous X-Forwarded-For value (+1): instants of requests not answered 429
 		parallelBursts := 0
 		rapid.SyncTest(rt, func(rt *rapid.T) {
 			start := time.Now()
@@ -188,8 +190,10 @@ func TestC09EndToEnd(t *testing.T) {
 					id = pending
 				}
 				pending = -1
-				if rapid.IntRange(0, 24).Draw(rt, "ambiguous") == 0 {
+				axBurst := 0
+				if rapid.IntRange(0, 11).Draw(rt, "ambiguous") == 0 {
 					id = -1
+					axBurst = rapid.IntRange(0, len(ambiguousXFF)-1).Draw(rt, "axff") // one value for the whole burst
 				}
 				// all draws of the burst first: the requests of a concurrent burst are built before any runs
 				batch := make([]*e2eReq, 0, cnt)
@@ -205,8 +209,13 @@ func TestC09EndToEnd(t *testing.T) {
 					if id < 0 {
 						uniq++
 						r.How = "xff-first-element-empty"
-						r.Remote = hostPort(fmt.Sprintf("198.18.%d.%d", uniq/250, 1+uniq%250), port)
-						r.XFF = []string{rapid.SampledFrom(ambiguousXFF).Draw(rt, "axff")}
+						// The rule is silent on WHICH address such a request is attributed to, but whatever reading
+						// is applied it is a function of these three inputs: requests that repeat the same header
+						// value from the same peer host belong to one client, so the upper bound applies to them.
+						ax := axBurst
+						r.Remote = hostPort(fmt.Sprintf("198.18.7.%d", 1+ax), port)
+						r.XFF = []string{ambiguousXFF[ax]}
+						r.Amb = ax + 1
 					} else {
 						a := ids[id].Addr
 						other := "203.0.113.9"
@@ -298,6 +307,9 @@ func TestC09EndToEnd(t *testing.T) {
 					}
 					if id < 0 {
 						ambiguous++
+						if r.Status != 429 {
+							ambAdmitted[r.Amb] = append(ambAdmitted[r.Amb], r.at)
+						}
 						continue
 					}
 					hows[id][r.How] = true
@@ -342,6 +354,12 @@ func TestC09EndToEnd(t *testing.T) {
 		}
 		for _, k := range keysOf(kindsSeen) {
 			labels = append(labels, "backend-"+k)
+		}
+		for ax, at := range ambAdmitted {
+			sort.Slice(at, func(i, j int) bool { return at[i] < at[j] })
+			if v := checkB1(p, at, "not answered 429", nil); v != "" && viol == "" {
+				viol = fmt.Sprintf("requests that all carry X-Forwarded-For: %q from one peer host (one client under every reading of the address rule): %s", ambiguousXFF[ax-1], v)
+			}
 		}
 		anyRefused, idle := false, false
 		howSeen := map[string]bool{}
